@@ -869,6 +869,8 @@ class Interp(object):
         if isinstance(v, (int, str, list, tuple, dict)):
             return bool(v)
         if isinstance(v, AList):
+            if v.generic and v.min_len >= 1:
+                return True
             if v.generic:
                 res = self.path.choose("nonempty %r" % v)
                 # ... which is a fact about its length, should the length be asked for as well
@@ -881,6 +883,11 @@ class Interp(object):
             return not (self.ge0(v) and self.ge0(-v))
         if isinstance(v, AMap):
             return self.path.choose("nonempty %r" % v)
+        if isinstance(v, AMapView) and isinstance(v.m, AMap):
+            # a view is empty when the table is; so is a list made of it, as long as the table has not changed since
+            stamp = getattr(v, "stamp", None)
+            if stamp is None or stamp == (len(v.m.adds), len(v.m.removes)):
+                return self.truth(v.m, node)
         if isinstance(v, Term) and v.op == "maybe-none":
             return not self.identical(v, None)
         if isinstance(v, ABoolTerm):
@@ -2569,7 +2576,7 @@ class Frame(object):
                 idx = idx.c
             if isinstance(idx, int):
                 if base.generic:
-                    if idx in (0, -1) and base.items:
+                    if idx in (0, -1) and base.items and not (idx == 0 and getattr(base, "unknown_head", False)):
                         return base.items[idx]
                     self.unsupported(node, "index into a generic list")
                 try:
@@ -4598,7 +4605,10 @@ def lib_call(fr: Frame, dotted: str, args, kwargs, node):
         return out
     if dotted in ("builtins.tuple", "builtins.list") and len(args) == 1 and not kwargs and isinstance(args[0], (AMap, AMapView)):
         # a snapshot of the keys / items of a symbolic table, walked like the table itself (every element is an entry of it)
-        return AMapView(args[0], "keys") if isinstance(args[0], AMap) else AMapView(args[0].m, args[0].which)
+        out = AMapView(args[0], "keys") if isinstance(args[0], AMap) else AMapView(args[0].m, args[0].which)
+        if isinstance(out.m, AMap):
+            out.stamp = (len(out.m.adds), len(out.m.removes))  # (a copy: it keeps what the table held at this point)
+        return out
     if dotted in ("builtins.tuple", "builtins.list") and len(args) == 1 and isinstance(args[0], Term) and args[0].op == "concat" \
             and getattr(args[0], "operands", None):
         out = Term("concat", *args[0].args)  # a copy (frozen or not) of the joined sequence: the same elements in the same order
